@@ -120,7 +120,7 @@ def parse_specs(text, fname='<spec>'):
             while body and not body[-1].strip():
                 body.pop()
             cur.clauses.append((loop, d, arg or None, '\n'.join(body)))
-        elif d in ('insert', 'rewrite', 'drop', 'rewrite_all', 'lift_closure'):
+        elif d in ('insert', 'rewrite', 'drop', 'rewrite_all', 'rewrite_any', 'lift_closure'):
             if not (i < len(lines) and lines[i].strip() == '<<<'):
                 raise SpecError('%s:%d expected <<<' % (fname, i + 1))
             i += 1
@@ -522,6 +522,13 @@ def inject(text, fs, oblig_lines=None, what=''):
         elif op == 'rewrite':
             text = apply_edit(text, 'rewrite', pat, rep, '%s @rewrite %s' % (fs.path, arg))
             rewrites.append((arg, ' '.join(pat.split())[:100]))
+        elif op == 'rewrite_any':
+            # like rewrite_all, but the std expression need not occur at all (zero or more hits)
+            hits = find_pattern(text, pat, want_caps=True)
+            for (a, b, caps) in sorted(hits, reverse=True):
+                text = text[:a] + _subst(rep, caps) + text[b:]
+            if hits:
+                rewrites.append((arg, '%dx %s' % (len(hits), ' '.join(pat.split())[:100])))
         elif op == 'rewrite_all':
             hits = find_pattern(text, pat, want_caps=True)
             if not hits:
